@@ -156,6 +156,63 @@ def prefix_family(ctx):
     return out
 
 
+def deep_chains():
+    """(name, syntax category, depth -> text): one recursive rule of the parser nested `depth` times"""
+    return [
+        ("cast", "a", lambda n: "int v = " + "(int)" * n + " 1;"),
+        ("assignment", "a", lambda n: "void f(void){ " + "a=" * n + " 1; }"),
+        ("prefix-minus", "e", lambda n: "- " * n + " 1"),
+        ("prefix-increment", "e", lambda n: "++ " * n + " a"),
+        ("address-of", "e", lambda n: "&" * n + "a"),
+        ("sizeof", "e", lambda n: "sizeof " * n + " a"),
+        ("extension", "e", lambda n: "__extension__ " * n + "1"),
+        ("conditional", "e", lambda n: "a?a:" * n + " 1"),
+        ("conditional-middle", "e", lambda n: "a ? " * n + "1" + " : 2" * n),
+        ("binary-flat", "e", lambda n: "a+" * n + " 1"),
+        ("comma", "e", lambda n: "a," * n + " 1"),
+        ("parentheses", "e", lambda n: "(" * n + "1" + ")" * n),
+        ("call-arguments", "e", lambda n: "f(" * n + "1" + ")" * n),
+        ("subscript", "e", lambda n: "a[" * n + "1" + "]" * n),
+        ("generic-selection", "e", lambda n: "_Generic(a, default: " * n + "1" + ")" * n),
+        ("compound-literal", "e", lambda n: "(int){" * n + "1" + "}" * n),
+        ("statement-expression", "e", lambda n: "({ " * n + "1;" + " })" * n),
+        ("va_arg", "e", lambda n: "__builtin_va_arg(" * n + "a" + ", int)" * n),
+        ("if", "s", lambda n: "if(a) " * n + " ;"),
+        ("else-if", "s", lambda n: "if(a) ; else " * n + " ;"),
+        ("if-else-nested", "s", lambda n: "if(a) " * n + ";" + " else ;" * n),
+        ("label", "s", lambda n: "l: " * n + " ;"),
+        ("case", "s", lambda n: "switch(a) { " + "case 1: " * n + " ; }"),
+        ("while", "s", lambda n: "while(a) " * n + " ;"),
+        ("do", "s", lambda n: "do " * n + ";" + " while(a);" * n),
+        ("for", "s", lambda n: "for(;;) " * n + ";"),
+        ("switch", "s", lambda n: "switch(a) " * n + ";"),
+        ("block", "s", lambda n: "{" * n + "}" * n),
+        ("declarator-parentheses", "d", lambda n: "int " + "(" * n + "a" + ")" * n + ";"),
+        ("pointer", "d", lambda n: "int " + "*" * n + "a;"),
+        ("qualified-pointer", "d", lambda n: "int " + "* const " * n + "a;"),
+        ("array-suffix", "d", lambda n: "int a" + "[1]" * n + ";"),
+        ("function-suffix", "d", lambda n: "int a" + "()" * n + ";"),
+        ("function-pointer", "d", lambda n: "int " + "(*" * n + "f" + ")(void)" * n + ";"),
+        ("parameter", "d", lambda n: "void f(" + "int (*p)(" * n + "void" + ")" * n + ");"),
+        ("initializer-braces", "d", lambda n: "int v = " + "{" * n + "1" + "}" * n + ";"),
+        ("struct", "d", lambda n: "struct s { int a; " * n + " m; }" * n + ";"),
+        ("type-name", "d", lambda n: "int v = sizeof(int " + "(*" * n + ")" * n + ");"),
+        ("array-size-in-type-name", "d", lambda n: "void f(int a[" + "sizeof(int[" * n + "1" + "])" * n + "]);"),
+        ("atomic-specifier", "d", lambda n: "_Atomic(" * n + "int" + ")" * n + " v;"),
+        ("specifiers", "d", lambda n: "const " * n + "int a;"),
+        ("attributes", "d", lambda n: "int a " + "__attribute__((x)) " * n + ";"),
+        ("string-concatenation", "d", lambda n: "char *s = " + "\"a\" " * n + ";"),
+        ("declarator-list", "d", lambda n: "int " + "a, " * n + "b;"),
+        ("enumerators", "d", lambda n: "enum e { " + "A, " * n + "B };"),
+        ("members", "d", lambda n: "struct s { " + "int a; " * n + "};"),
+        ("parameters", "d", lambda n: "void f(" + "int, " * n + "int);"),
+        ("designators", "d", lambda n: "int v[] = { " + "[0]" * n + " = 1 };"),
+        ("postfix-chain", "e", lambda n: "a" + "++" * n),
+        ("member-chain", "e", lambda n: "a" + ".m" * n),
+        ("call-chain", "e", lambda n: "a" + "()" * n),
+    ]
+
+
 def classify(kind, cat, answer):
     """None = fine; else a description of the failure."""
     if answer == "SKIPPED":
@@ -168,6 +225,8 @@ def classify(kind, cat, answer):
         if "maximum depth of" in answer:
             return None
         return "raised an undeclared exception: " + answer[:200]
+    if cat == "A" and "; built TranslationUnit " not in answer:
+        return "whole-unit parse did not return a tree rooted at a translation unit: " + answer[:160]
     if cat == "a" and "; N0 TranslationUnit " not in answer:
         return "whole-unit parse did not return a tree rooted at a translation unit: " + answer[:160]
     return None
@@ -269,6 +328,44 @@ def run(ctx):
             if why:
                 failures.append(("asan", "token-prefix", "a", opt, d, why))
     kinds_count["token-prefix"] = 2 * len(pf)
+    # ---- 4. deep chains: every recursive rule of the parser nested far beyond any limit (100,000 levels; 3,000 under ASan, whose frames are
+    # larger): the answer must be a tree or the declared nesting-limit error, never a stack overflow.  The tree is built and NOT walked by
+    # the harness (category letter in upper case): a recursive walk of a deep tree would exhaust the harness's own stack.
+    deep = deep_chains()
+    for flavour, n in (("ndebug", 100000), ("assert", 100000), ("asan", 3000)):
+        if len(failures) >= 3:
+            break
+        lines = ["%s %s %s" % ("2,1,0,2," + "d" * 31, cat.upper(), mk(n).encode().hex()) for _, cat, mk in deep]
+        answers = stages.run_harness(ctx, "tree", lines, flavour=flavour, per_case_s=60, max_failures=10)
+        total += sum(1 for a in answers if a != "SKIPPED")
+        for (name, cat, mk), a in zip(deep, answers):
+            why = classify("deep-chain", cat.upper(), a)
+            if why:
+                failures.append((flavour, "deep-chain:%s x %d" % (name, n), cat.upper(), "2,1,0,2," + "d" * 31, mk(n).encode(), why))
+    kinds_count["deep-chain"] = 3 * len(deep)
+    # ---- 5. nests of speculatively parsed constructs: the parser tries one reading, backtracks and parses the same tokens again, at every
+    # level: the time is exponential in the depth.  Depth 9 must return at once; the depths at which the time limit is exceeded are the
+    # recorded finding `exponential-backtracking:<construct>` (listed in known_findings.jsonl; any OTHER failure on these inputs is reported)
+    spec = [("typeof", lambda n: "__typeof__(" * n + "int" + ")" * n + " v;", 26),
+            ("alignas", lambda n: "_Alignas(" * n + "int" + ")" * n + " int v;", 26),
+            ("sizeof-enum", lambda n: "enum e { " + "A = sizeof(enum { " * n + "B" + " })" * n + " };", 30),
+            ("sizeof-array-of-name", lambda n: "int v = " + "sizeof(a[" * n + "1" + "])" * n + ";", 20)]
+    lines = ["%s A %s" % ("2,1,0,2," + "d" * 31, mk(9).encode().hex()) for _, mk, _ in spec]
+    for (name, mk, _), a in zip(spec, stages.run_harness(ctx, "tree", lines, flavour="ndebug", per_case_s=15)):
+        why = classify("speculative-nest", "A", a)
+        if why:
+            failures.append(("ndebug", "speculative-nest:%s x 9" % name, "A", "2,1,0,2," + "d" * 31, mk(9).encode(), why))
+    lines = ["%s A %s" % ("2,1,0,2," + "d" * 31, mk(n).encode().hex()) for _, mk, n in spec]
+    for (name, mk, n), a, l in zip(spec, stages.run_harness(ctx, "tree", lines, flavour="ndebug", per_case_s=6), lines):
+        why = classify("speculative-nest", "A", a)
+        if why and a.startswith("HANG"):
+            ctx.report("exponential-backtracking:" + name, "%r nested %d times (%d bytes): SyntaxTree::parseText did not return within 6 s (the time triples with every level)" % (mk(1), n, len(mk(n))),
+                       {"component": "tree", "flavour": "ndebug", "case": l})
+        elif why:
+            failures.append(("ndebug", "speculative-nest:%s x %d" % (name, n), "A", "2,1,0,2," + "d" * 31, mk(n).encode(), why))
+    total += 2 * len(spec)
+    kinds_count["speculative-nest"] = 2 * len(spec)
+    ctx.log("deep chains: %d rules x 3 builds, %d failures so far" % (len(deep), len(failures)))
     ctx.log("token-prefix family: %d prefixes x 2 option sets, %d failures so far" % (len(pf), len(failures)))
     seen = set()
     for flavour, kind, cat, opt, data, why in failures:
@@ -284,13 +381,13 @@ def run(ctx):
     ctx.cov.update({
         "evaluations": len(pc) + total, "distinct_nontrivial": len({(t, tuple(o)) for t, o in pc}) + total,
         "traces_validated_against_impl": len(pc), "exhaustive": False,
-        "rule": "protocol: all sequences of 1..3 cursor operations over 9 operations on 12 token strings + seeded random sequences on ~70 more (real Parser vs Lean model, %d traces); robustness: %s inputs (an eighth with directive / expansion-marker lines inserted, a third of them with an ambiguous statement planted after a random brace so that the disambiguation pass walks the tree; valid, truncated at random offsets, token-mutated, byte-mutated, unterminated literal/comment/directive tails, invalid UTF-8 incl. truncated sequences at the end, nesting within the declared limits, token soup, the syntactic corpus of C03/C14/C04 as written and token-mutated; plus EVERY token-boundary prefix of a few programs with K&R definitions and all extensions switched on, under ASan) x random ParseOptions (dialect, 31 switches, comment mode, disambiguation mode, keyword recognition) x syntax category x builds %s (the ASan builds with -D_GLIBCXX_ASSERTIONS: container accesses checked against size(), not capacity), each parsed, fully traversed and asked first/last token of every node; non-trivial = every robustness input counts (distinct random data)"
+        "rule": "protocol: all sequences of 1..3 cursor operations over 9 operations on 12 token strings + seeded random sequences on ~70 more (real Parser vs Lean model, %d traces); robustness: %s inputs (an eighth with directive / expansion-marker lines inserted, a third of them with an ambiguous statement planted after a random brace so that the disambiguation pass walks the tree; valid, truncated at random offsets, token-mutated, byte-mutated, unterminated literal/comment/directive tails, invalid UTF-8 incl. truncated sequences at the end, nesting within the declared limits, 51 recursive rules nested 100,000 times (parse only), token soup, the syntactic corpus of C03/C14/C04 as written and token-mutated; plus EVERY token-boundary prefix of a few programs with K&R definitions and all extensions switched on, under ASan) x random ParseOptions (dialect, 31 switches, comment mode, disambiguation mode, keyword recognition) x syntax category x builds %s (the ASan builds with -D_GLIBCXX_ASSERTIONS: container accesses checked against size(), not capacity), each parsed, fully traversed and asked first/last token of every node; non-trivial = every robustness input counts (distinct random data)"
                 % (len(pc), total, [f for f, _ in plan]),
         "samples": [plines[5], str(metas[0][3][:120]), str(metas[-1][3][:120])],
     })
     ctx.notes.update({"protocol_traces": len(pc), "robustness_inputs": total, "input_kinds": kinds_count, "failures": len(failures),
                       "protocol_violations": nviol, "protocol_correspondence_disagreements": ncorr})
-    ctx.assumptions += ["lexer cursor bounds and termination are modelled under C05", "nesting beyond the declared limits in constructs that have no declared limit (declarators, unary chains, initializer braces, if-chains) is outside the property's quantifier and not generated (it overflows the stack at ~20k levels)",
+    ctx.assumptions += ["lexer cursor bounds and termination are modelled under C05", "deep chains (each recursive rule nested 100,000 times; 3,000 under ASan) are parsed without the harness walking the tree: a recursive walk of a tree that deep (the harness's own, and the front end's lastToken()) needs more stack than the parse",
                         "object lifetime, null dereference, stack depth and running time are observed under sanitizers, not proved"]
     if not proved:
         stages.lean_unproved(ctx, "C01", "PsycheModel.Props.C01")
